@@ -45,7 +45,13 @@ SetToSeq(S) == IF S = {} THEN <<>> ELSE LET x == CHOOSE x \in S : TRUE IN <<x>> 
 SpeedSessions == {[kind |-> "speed", cases |-> [j \in 1..Cardinality(SpeedCases) |->
                      LET c == SetToSeq(SpeedCases)[j] IN [u |-> c[1], k |-> c[2]]]]}
 
-Sessions == TimeSessions \cup MapSessions \cup SpeedSessions
+\* tweens between clock speeds given in any two units: 2^k1 -> 2^k2 ticks per second, q quarters of the way
+SpeedKs == <<-3, 0, 2>>
+SpeedICase(x) == [u1 |-> (x \div 135) % 3, k1 |-> SpeedKs[((x \div 15) % 3) + 1], u2 |-> (x \div 45) % 3,
+                  k2 |-> SpeedKs[((x \div 5) % 3) + 1], q |-> x % 5]
+SpeedISessions == {[kind |-> "speedi", cases |-> [j \in 1..405 |-> SpeedICase(j - 1)]]}
+
+Sessions == TimeSessions \cup MapSessions \cup SpeedSessions \cup SpeedISessions
 
 NCases(s) == IF s.kind = "time" THEN Len(s.args) ELSE IF s.kind = "map" THEN Len(s.xs) ELSE Len(s.cases)
 Cfg(s) == IF s.kind = "map" THEN [kind |-> "map", ek |-> s.ek, pw |-> s.pw, g |-> s.g, lo |-> s.lo, hi |-> s.hi,
@@ -74,6 +80,10 @@ ModelEvent(s, j) ==
   ELSE IF s.kind = "map" THEN
     LET y == MapRef(s.ek, s.pw, s.lo, s.hi, s.olo, s.ohi, s.xs[j])
     IN [a |-> "map", x |-> s.xs[j], p |-> FALSE, y |-> y, yx |-> TRUE, h |-> y, l |-> 0]
+  ELSE IF s.kind = "speedi" THEN
+    LET c == s.cases[j]
+    IN [a |-> "speed_i", u1 |-> c.u1, k1 |-> c.k1, u2 |-> c.u2, k2 |-> c.k2, q |-> c.q, p |-> FALSE, ex |-> TRUE,
+        ru |-> c.u2, r |-> SpeedInterp1024(c.u2, c.k1, c.k2, c.q), tp |-> SpeedInterpTps1024(c.u2, c.k1, c.k2, c.q)]
   ELSE
     LET c == s.cases[j]
     IN [a |-> "speed", u |-> c.u, k |-> c.k, p |-> FALSE, ex |-> TRUE,
@@ -91,6 +101,8 @@ Expected(s, j) ==
          [] s.op = "cmp" -> [c |-> Cmp(q, t, <<x \div q, x % q>>)]
          [] s.op = "from_f" -> [r |-> FromTicksF(q, x), under |-> FALSE]
   ELSE IF s.kind = "map" THEN [y |-> MapRef(s.ek, s.pw, s.lo, s.hi, s.olo, s.ohi, s.xs[j])]
+  ELSE IF s.kind = "speedi" THEN
+    [r |-> SpeedInterp1024(s.cases[j].u2, s.cases[j].k1, s.cases[j].k2, s.cases[j].q)]
   ELSE [tp |-> Dy(s.cases[j].k)]
 
 -----------------------------------------------------------------------------
@@ -191,4 +203,5 @@ W_ClampHigh == ~(ev.a = "map" /\ ev.x > mon.cfg.hi /\ bad = "")
 W_InOutUp   == ~(ev.a = "map" /\ mon.cfg.ek = 3 /\ mon.cfg.pw = 3 /\ 2 * (ev.x - mon.cfg.lo) > mon.cfg.hi - mon.cfg.lo
                  /\ ev.x < mon.cfg.hi /\ bad = "")
 W_SpeedDown == ~(ev.a = "speed" /\ ev.k < 0 /\ ev.u = 2 /\ bad = "")
+W_SpeedAcross == ~(ev.a = "speed_i" /\ ev.u1 = 1 /\ ev.u2 = 0 /\ ev.q = 2 /\ ev.k1 # ev.k2 /\ bad = "")
 =============================================================================
